@@ -59,7 +59,7 @@ void print_result(const Case &c, const CaseResult &r) {
     for (auto &kv : r.extra) std::printf(" x.%s=%llu", kv.first.c_str(), static_cast<unsigned long long>(kv.second));
     std::printf("\n");
     for (auto &v : r.viol)
-        std::printf("VIOL i=%llu alt=%d prop=%s key=%s step=%d detail=%s\n", static_cast<unsigned long long>(c.index), r.failing_alt, v.prop.c_str(), v.key.c_str(), v.step, oneline(v.detail).c_str());
+        std::printf("VIOL i=%llu alt=%d prop=%s key=%s step=%d detail=%s\n", static_cast<unsigned long long>(c.index), c.prop == "C16" ? v.step : r.failing_alt, v.prop.c_str(), v.key.c_str(), v.step, oneline(v.detail).c_str());
     for (auto &n : r.notes) std::printf("%s (case %llu)\n", oneline(n).c_str(), static_cast<unsigned long long>(c.index));
 }
 
@@ -279,6 +279,9 @@ int cmd_worker(int argc, char **argv) {
         if (fd >= 0 && ftruncate(fd, 4096) == 0) prog = static_cast<uint64_t *>(mmap(nullptr, 4096, PROT_READ | PROT_WRITE, MAP_SHARED, fd, 0));
         if (prog == MAP_FAILED) prog = nullptr;
     }
+    std::string root = arg(argc, argv, "--root", "");
+    if (!root.empty()) disk_set_real_root(root);
+    bool stepHashes = flag(argc, argv, "--steps");
     install_crash_handlers();
     RunStats total;
     uint64_t nSamples = 0;
@@ -295,6 +298,7 @@ int cmd_worker(int argc, char **argv) {
         Case c = gen_case(prop, tier, seed, i);
         CaseResult r = run_case(c, prog ? prog + 1 : nullptr);
         print_result(c, r);
+        if (stepHashes) { std::printf("STEPS i=%llu", static_cast<unsigned long long>(i)); for (auto h : r.step_hashes) std::printf(" %016llx", static_cast<unsigned long long>(h)); std::printf("\n"); }
         if (nSamples < 3) { std::printf("SAMPLE %s\n", oneline(case_sample(c)).c_str()); ++nSamples; }
         std::fflush(stdout);
         total.states.insert(r.st.states.begin(), r.st.states.end());
